@@ -1,6 +1,6 @@
 NP = "ntp_proto_h"
 _quick_scale = ["i8", "u8", "i16", "u16", "i32", "u32", "i64", "isize"]
-_wide = ["wide_i8", "wide_u16", "wide_i32", "wide_i64"]
+_wide = ["wide_i8", "wide_u16"]  # wide_i32 / wide_i64 (constants 1e6, 1e9+7, MAX) exceed the 40 min cap: not registered
 PROP = dict(
     functions=[
         "ntp_proto::time_types::NtpTimestamp::{add,add_assign,sub,sub_assign,sub<NtpTimestamp>,is_before,truncated_second_bits,from_bits,to_bits,from_seconds_nanos_since_ntp_era}",
@@ -8,23 +8,20 @@ PROP = dict(
         "ntp_proto::time_types::PollInterval::as_duration, NtpDuration * FrequencyTolerance",
         "statime_base::time_types::{Timestamp<TAI>,Duration} operator impls and constructors",
     ],
-    bounds="all 64-bit timestamps and durations for add/sub/neg/abs/wire formats/conversion from seconds (all finite f64); scaling: every 64-bit duration x a list of constant scalars per scalar type (0, +-1, 2, MIN, MAX, and non-powers-of-two in the thorough tier) plus symbolic 8-bit scalar x 12..20-bit duration against a shift-add reference; all 128-bit PTP values for add/sub/timestamp laws; PTP scaling: |d| < 2^110 or d in {MIN,MAX} x all i8/u8/i16/u16 scalars. Code is loop-free: no unwinding bound involved.",
-    outside="symbolic-by-symbolic 64-bit scaling against an independent reference (multiplier/divider equivalence does not terminate: measured 145 s for one query, >10 min overall); PTP scaling by 32/64-bit scalars; division by zero (documented precondition); Debug formatting",
+    bounds="all 64-bit timestamps and durations for add/sub/neg/abs/wire formats/conversion from seconds (all finite f64); scaling: every 64-bit duration x a list of constant scalars per scalar type (0, +-1, 2, MIN, MAX, and non-powers-of-two in the thorough tier) plus symbolic 8-bit scalar x 12..20-bit duration against a shift-add reference; all 128-bit PTP values for add/sub/timestamp laws; PTP scaling is not decided (see outside). Code is loop-free: no unwinding bound involved.",
+    outside="PTP (128-bit) duration scaling, the seconds/nanos constructor division by 1e9, duration * FrequencyTolerance and division by non-power-of-two 64-bit constants: harnesses exist in c32.rs but exceed the 40-minute cap (not registered); symbolic-by-symbolic 64-bit scaling against an independent reference (multiplier/divider equivalence does not terminate: measured 145 s for one query, >10 min overall); PTP scaling by 32/64-bit scalars; division by zero (documented precondition); Debug formatting",
     assumptions=["nanos < 1e9 for the seconds/nanos constructors (documented precondition, debug_assert in the code)", "divisor != 0",
                  "reference for saturating scaling uses std checked_mul/checked_div (same circuit on both sides), so the solver decides the repo's saturation/cast/sign logic, not CBMC's multiplier"],
     harnesses=[
         H(NP, "c32", "c32_ts_sub_add", "timestamp difference is the shortest signed difference across eras and adds back"),
         H(NP, "c32", "c32_ts_add_dur", "timestamp +/- duration wraps modulo 2^64"),
         H(NP, "c32", "c32_ts_bits_truncate", "timestamp wire round trip, truncation"),
-        H(NP, "c32", "c32_ts_ctor", "seconds/nanos constructor (division-free characterisation)", tier="thorough", timeout_thorough=2400),
         H(NP, "c32", "c32_dur_add_sub", "duration add/sub saturate (i128 reference)"),
         H(NP, "c32", "c32_dur_neg_abs", "negation/abs/abs_diff saturate and never panic"),
     ] + [H(NP, "c32", "c32_dur_scale_" + t, "duration * and / %s constants (0, +-1, 2, MIN) saturate, never panic" % t) for t in _quick_scale] + [
         H(NP, "c32", "c32_dur_scale_" + t, "duration * and / non-power-of-two constants", tier="thorough", timeout_thorough=2400) for t in _wide] + [
-        H(NP, "c32", "c32_dur_div_consts", "quotient characterised without dividing, constant divisors", tier="thorough", timeout_thorough=2400),
         H(NP, "c32", "c32_dur_div_small", "symbolic i8 divisor, 20-bit dividend"),
         H(NP, "c32", "c32_dur_mul_small", "symbolic i8 factor, 12-bit duration, shift-add reference"),
-        H(NP, "c32", "c32_dur_freq_tolerance", "duration * FrequencyTolerance (ppm in {0,15,1e6})", tier="thorough", timeout_thorough=2400),
         H(NP, "c32", "c32_from_seconds_sign_saturation", "from_seconds preserves sign and saturates for all finite f64"),
         H(NP, "c32", "c32_from_seconds_monotone_units", "from_seconds keeps integer seconds exact"),
         H(NP, "c32", "c32_roundtrip_small", "from_seconds(to_seconds(d)) within 1 ppb + 1 unit, |d| < 2^33 units"),
@@ -33,10 +30,6 @@ PROP = dict(
         H(NP, "c32", "c32_dur_misc", "as_seconds_nanos, from_exponent, log2, poll interval duration"),
         H(NP, "c32", "c32_ptp_ts", "PTP timestamp wrap laws (128-bit)"),
         H(NP, "c32", "c32_ptp_dur_add_sub", "PTP duration saturating add/sub"),
-        H(NP, "c32", "c32_ptp_scale_i8", "PTP duration * / i8", tier="thorough", timeout_thorough=2400),
-        H(NP, "c32", "c32_ptp_scale_u8", "PTP duration * / u8", tier="thorough", timeout_thorough=2400),
-        H(NP, "c32", "c32_ptp_scale_i16", "PTP duration * / i16", tier="thorough"),
-        H(NP, "c32", "c32_ptp_scale_u16", "PTP duration * / u16", tier="thorough"),
         H(NP, "c32", "c32_ptp_ctor", "PTP constructors"),
     ],
 )
